@@ -395,7 +395,7 @@ func hostilePrograms() []hostile {
 		}
 		for _, v := range variants {
 			if f, err := type1.Read(strings.NewReader(v)); err == nil {
-				f.Write(&bytes.Buffer{}, nil)
+				f.Write(&bytes.Buffer{}, &type1.WriterOptions{})
 				scribbleAll(f.GlyphList(), f.BuiltinEncoding())
 				scribbleAll(f)
 			}
@@ -444,7 +444,7 @@ func hostilePrograms() []hostile {
 		for _, format := range corpus.Formats {
 			f.Write(&bytes.Buffer{}, &type1.WriterOptions{Format: format})
 		}
-		f.Write(&bytes.Buffer{}, nil)
+		f.Write(&bytes.Buffer{}, &type1.WriterOptions{})
 		f.WritePDF(&bytes.Buffer{})
 		f.GlyphList()
 		f.BuiltinEncoding()
@@ -458,7 +458,7 @@ func hostilePrograms() []hostile {
 		t1 := corpus.FontsT1gen()
 		for _, in := range []corpus.Input{t1[0], t1[len(t1)/2], t1[len(t1)-1]} {
 			if f, err := type1.Read(bytes.NewReader(in.Data)); err == nil {
-				f.Write(&bytes.Buffer{}, nil)
+				f.Write(&bytes.Buffer{}, &type1.WriterOptions{})
 				f.WritePDF(&bytes.Buffer{})
 			}
 		}
@@ -508,7 +508,7 @@ func hostilePrograms() []hostile {
 			f.Glyphs["A"].Cmds = nil
 			f.Private.BlueValues[0] = 99
 			f.FontInfo.FontMatrix[0] = 5
-			f.Write(&bytes.Buffer{}, nil)
+			f.Write(&bytes.Buffer{}, &type1.WriterOptions{})
 		}
 		return true
 	}})
@@ -957,6 +957,36 @@ func argumentsFamily(budget time.Duration) mc.Family {
 			m.FontBBoxPDF()
 			m.GlyphWidthPDF("A")
 			return before, observe.Dump(m)
+		}},
+		call{"Metrics.Write of metrics whose kerning pairs are in no particular order", func() (string, string) {
+			m := corpus.SampleMetrics()
+			m.Kern = append(m.Kern, &afm.KernPair{Left: "V", Right: "A", Adjust: -80}, &afm.KernPair{Left: "T", Right: "o", Adjust: -70},
+				&afm.KernPair{Left: "A", Right: "V", Adjust: -60}, &afm.KernPair{Left: "A", Right: "T", Adjust: -50}, &afm.KernPair{Left: "A", Right: "V", Adjust: -40})
+			for i, j := 0, len(m.Kern)-1; i < j; i, j = i+1, j-1 {
+				m.Kern[i], m.Kern[j] = m.Kern[j], m.Kern[i]
+			}
+			before := observe.Dump(m)
+			m.Write(&bytes.Buffer{})
+			m.GlyphList()
+			return before, observe.Dump(m)
+		}},
+		call{"Font.Write of a font whose encoding names the glyphs in reverse order", func() (string, string) {
+			f := corpus.SampleFont()
+			enc := make([]string, 256)
+			for i := range enc {
+				enc[i] = ".notdef"
+			}
+			for i, name := range f.GlyphList() {
+				if i < 256 {
+					enc[255-i] = name
+				}
+			}
+			f.Encoding = enc
+			before := observe.Dump(f)
+			f.Write(&bytes.Buffer{}, &type1.WriterOptions{})
+			f.WritePDF(&bytes.Buffer{})
+			f.GlyphList()
+			return before, observe.Dump(f)
 		}},
 		call{"readers given a byte slice", func() (string, string) {
 			data := append([]byte{}, corpus.Fonts()[0].Data...)
